@@ -187,6 +187,14 @@ func genGroup(r *sx.Rng) group {
 	mutate := func(t auparse.AuditMessageType, raw string) string { return raw }
 	add := func(t auparse.AuditMessageType) {
 		raw := mutate(t, genRecord(r, t, seq, sec, pool))
+		// records of one group need not carry the same header (the reassembler groups by sequence number alone): the event's
+		// timestamp and sequence are the first record's, whatever the later ones say
+		if r.Chance(1, 4) {
+			raw = strings.Replace(raw, fmt.Sprintf("audit(%d.", sec), fmt.Sprintf("audit(%d.", sec+int64(1+r.Intn(3))), 1)
+		}
+		if r.Chance(1, 8) {
+			raw = strings.Replace(raw, fmt.Sprintf(":%d)", seq), fmt.Sprintf(":%d)", seq+uint32(1+r.Intn(3))), 1)
+		}
 		m, err := auparse.Parse(t, raw)
 		if err == nil {
 			g.msgs = append(g.msgs, m)
